@@ -615,7 +615,8 @@ public:
 	///Get the period of the spline in a given dimension
 	double get_period(uint32_t dim) const{
 		assert(dim<ndim);
-		return(periods[dim]);
+		//tables produced by fitting or stacking carry no periods: not periodic
+		return(periods ? periods[dim] : 0);
 	}
 	///Get the total number of spline coefficients
 	uint64_t get_ncoeffs() const{
